@@ -1,6 +1,6 @@
 (* C14 — close() is final and status notifications are faithful.
    Statements only; proofs live in ClientLTSProofs.v.  Model: ClientLTS.v (see props/C13.v for the conventions):
-   the labelled transition system of nmea2000/ioclient.py; [trans k true true true true true] = the code with the repairs
+   the labelled transition system of nmea2000/ioclient.py; [trans k sd true true true true true] = the code with the repairs
    F-eofspin, F-closerace, F-connect-lost, F-serial-drain-leak and without an idempotence guard in close(); every theorem holds for EVERY client kind, reachable state, schedule and peer.
    `trace x` = the arguments of the status callback so far, newest first. *)
 From NV Require Import Base ClientLTS ClientLTSProofs.
@@ -9,28 +9,28 @@ From NV Require Import Base ClientLTS ClientLTSProofs.
 (* from a CLOSED state, whatever happens next (connect() calls, the connect in flight completing or failing, retry
    timers, faults, sends, peer traffic): the state stays CLOSED, no connection attempt is started, the status callback
    is not invoked again *)
-Theorem C14_closed_absorbing : forall k ls x y,
-  st x = Closed -> run k true true true true true x ls = Some y ->
+Theorem C14_closed_absorbing : forall k sd ls x y,
+  st x = Closed -> run k sd true true true true true x ls = Some y ->
   st y = Closed /\ attempts y = attempts x /\ trace y = trace x.
 Proof. exact closed_absorbing. Qed.
 Print Assumptions C14_closed_absorbing.
 
-Theorem C14_closed_iff_close_called : forall k x,
-  reachable k true true true true true x -> (st x = Closed <-> closing x <> KNone).
+Theorem C14_closed_iff_close_called : forall k sd x,
+  reachable k sd true true true true true x -> (st x = Closed <-> closing x <> KNone).
 Proof. exact closed_iff_close_called. Qed.
 Print Assumptions C14_closed_iff_close_called.
 
 (* ---- the link is shut ---- *)
 (* the current connection, once close() is past `self.writer.close()` *)
-Theorem C14_link_shut_current : forall k x w,
-  reachable k true true true true true x -> past_close_rest x -> writer x = Some w ->
+Theorem C14_link_shut_current : forall k sd x w,
+  reachable k sd true true true true true x -> past_close_rest x -> writer x = Some w ->
   In w (closed_w x) \/ In w (drainfail_w x) \/ awaiting_drain x.
 Proof. exact link_shut_current. Qed.
 Print Assumptions C14_link_shut_current.
 
 (* every connection that came up after close() was called ([n0] = number of connections at that moment) *)
-Theorem C14_link_shut_new : forall k x w,
-  reachable k true true true true true x -> closing x <> KNone -> (n0 x <= w < next_w x)%nat ->
+Theorem C14_link_shut_new : forall k sd x w,
+  reachable k sd true true true true true x -> closing x <> KNone -> (n0 x <= w < next_w x)%nat ->
   In w (closed_w x) \/ In w (drainfail_w x) \/ (writer x = Some w /\ awaiting_drain x).
 Proof. exact link_shut_new. Qed.
 Print Assumptions C14_link_shut_new.
@@ -38,27 +38,27 @@ Print Assumptions C14_link_shut_new.
 (* FULL statement: once close() has returned and the connect() that was in flight has finished, EVERY connection that
    came up after close() was called has been closed (needs the repair F-serial-drain-leak: the serial `_connect_impl`
    closes the port when its configuration write / drain raises) *)
-Theorem C14_link_shut_full : forall k x w,
-  reachable k true true true true true x -> closing x = KDone -> hold x = HNone -> (n0 x <= w < next_w x)%nat -> In w (closed_w x).
+Theorem C14_link_shut_full : forall k sd x w,
+  reachable k sd true true true true true x -> closing x = KDone -> hold x = HNone -> (n0 x <= w < next_w x)%nat -> In w (closed_w x).
 Proof. exact link_shut_full. Qed.
 Print Assumptions C14_link_shut_full.
 
 (* the current connection is closed as soon as close() is past `self.writer.close()`; the only exception is a serial port
    whose configuration drain is still pending: it is closed when that drain returns or raises (C14_link_shut_full) *)
-Theorem C14_link_shut_current_full : forall k x w,
-  reachable k true true true true true x -> past_close_rest x -> writer x = Some w -> In w (closed_w x) \/ awaiting_drain x.
+Theorem C14_link_shut_current_full : forall k sd x w,
+  reachable k sd true true true true true x -> past_close_rest x -> writer x = Some w -> In w (closed_w x) \/ awaiting_drain x.
 Proof. exact link_shut_current_full. Qed.
 Print Assumptions C14_link_shut_current_full.
 
 (* the code without that repair: the port that opened after close() stays open for ever *)
 Theorem C14_drainleak_as_it_was : exists x,
-  run KSerial true true true false true init drainleak = Some x /\
+  run KSerial false true true true false true init drainleak = Some x /\
   st x = Closed /\ closing x = KDone /\ hold x = HNone /\ n0 x = 0%nat /\ next_w x = 1%nat /\ writer x = Some 0%nat /\ closed_w x = [].
 Proof. exact drainleak_as_it_was. Qed.
 Print Assumptions C14_drainleak_as_it_was.
 
 Example C14_nonvacuous_drain : exists x,
-  run KSerial true true true true true init drainleak = Some x /\
+  run KSerial false true true true true true init drainleak = Some x /\
   st x = Closed /\ closing x = KDone /\ hold x = HNone /\ writer x = Some 0%nat /\ closed_w x = [0%nat] /\ drainfail_w x = [].
 Proof. exact drainleak_repaired. Qed.
 
@@ -68,8 +68,8 @@ Proof. exact drainleak_repaired. Qed.
    the state is CLOSED, the current link has been shut (only exception: a serial port that opened after close() and whose
    configuration drain is still pending - connect() closes it when that drain ends, C14_link_shut_full), and no receive task can
    read any more (finished; or created and not started: it exits at its first step; or a cancellation is pending) *)
-Theorem C14_every_close_return_link_shut : forall k x a y,
-  reachable k true true true true true x -> trans k true true true true true x a = Some y ->
+Theorem C14_every_close_return_link_shut : forall k sd x a y,
+  reachable k sd true true true true true x -> trans k sd true true true true true x a = Some y ->
   closes_done y = S (closes_done x) ->
   st y = Closed /\ (forall w, writer y = Some w -> In w (closed_w y) \/ awaiting_drain y) /\
   (rx_quiet y = true \/ rx_creq y = true).
@@ -80,14 +80,14 @@ Print Assumptions C14_every_close_return_link_shut.
    second close() issued while the first is inside its CLOSED status callback returns with the link open and the receive
    task running *)
 Theorem C14_close_guard_as_it_would_be : exists x,
-  run KEByte true true true true false init close_twice = Some x /\
+  run KEByte false true true true true false init close_twice = Some x /\
   closes_done x = 1%nat /\ st x = Closed /\ closing x = KInCb /\ writer x = Some 0%nat /\ closed_w x = [] /\
   rx x = RWait /\ rx_creq x = false.
 Proof. exact close_guard_as_it_would_be. Qed.
 Print Assumptions C14_close_guard_as_it_would_be.
 
 Example C14_nonvacuous_close_twice : exists x,
-  run KEByte true true true true true init
+  run KEByte false true true true true true init
       (close_twice ++ [ARxCancelled; AEnvEof; AClose2Timer true; AConsCancelled; AClose2Timer false]) = Some x /\
   closes_done x = 1%nat /\ st x = Closed /\ closing x = KInCb /\ writer x = Some 0%nat /\ closed_w x = [0%nat] /\
   rx x = RDone /\ cons x = CDone.
@@ -103,68 +103,84 @@ Proof. exact close_twice_as_it_is. Qed.
    unchanged, so the model needs no switch for it. *)
 (* the queue consumer is finished: no receive callback can start or resume; the receive task is finished or was created
    after close() and will exit at its first step without reading: no `_receive_impl` call *)
-Theorem C14_after_close_returned : forall k x,
-  reachable k true true true true true x -> closing x = KDone ->
+Theorem C14_after_close_returned : forall k sd x,
+  reachable k sd true true true true true x -> closing x = KDone ->
   st x = Closed /\ cons x = CDone /\ rx_quiet x = true /\
-  (forall o, trans k true true true true true x (AConsGot o) = None) /\ trans k true true true true true x AConsCbDone = None /\
-  (forall o, trans k true true true true true x (ARxIter o) = None).
+  (forall o, trans k sd true true true true true x (AConsGot o) = None) /\ trans k sd true true true true true x AConsCbDone = None /\
+  (forall o, trans k sd true true true true true x (ARxIter o) = None).
 Proof. exact after_close_returned. Qed.
 Print Assumptions C14_after_close_returned.
 
 (* the client's own tasks (connect retry, receive loops, consumer, fault handlers) finish: after close() has returned
    they can take at most [fin_measure x] further steps in total, under any schedule; the steps excluded from
    [background] are the application's (connect(), send()) and the peer's *)
-Theorem C14_background_tasks_finish : forall k ls x y,
-  reachable k true true true true true x -> closing x = KDone -> all_background ls = true ->
-  run k true true true true true x ls = Some y -> (length ls <= fin_measure x)%nat.
+Theorem C14_background_tasks_finish : forall k sd ls x y,
+  reachable k sd true true true true true x -> closing x = KDone -> all_background ls = true ->
+  run k sd true true true true true x ls = Some y -> (length ls <= fin_measure x)%nat.
 Proof. exact background_tasks_finish. Qed.
 Print Assumptions C14_background_tasks_finish.
+
+(* ---- the network-map seeding task (sd = true) ---- *)
+(* C14_background_tasks_finish above includes the seeding tasks: [fin_measure] weighs every phase a task still has to go
+   through (and the task a connect() that is finishing will still create): after close() has returned every seeding task
+   ends - its sleeps end, its sends return on the CLOSED client.  A concrete run: close() between the first and the second
+   request; and without the parameter no seeding step is possible *)
+Theorem C14_seeding_task_finishes_after_close : exists x,
+  run KEByte true true true true true true init seeding_then_close = Some x /\
+  st x = Closed /\ closing x = KDone /\ attempts x = 1%nat /\ trace x = [Closed; Conn] /\
+  (seed_new x + seed_sleep x + seed_drain x + seed_cb x = 0)%nat /\ seed_more x = 0%nat.
+Proof. exact seeding_task_finishes_after_close. Qed.
+Print Assumptions C14_seeding_task_finishes_after_close.
+
+Example C14_no_seeding_task_without_the_parameter :
+  run KEByte false true true true true true init [AConsStart; AUserConnect; AConnEntry true; AImplOk CbRet; ASeedStart] = None.
+Proof. exact no_seeding_task_without_the_parameter. Qed.
 
 (* ---- the status callback ---- *)
 (* invoked once per state change and only then: every step either leaves state and trace alone or changes the state
    and pushes exactly the new state *)
-Theorem C14_status_once_per_change : forall k x a y,
-  trans k true true true true true x a = Some y ->
+Theorem C14_status_once_per_change : forall k sd x a y,
+  trans k sd true true true true true x a = Some y ->
   (st y = st x /\ trace y = trace x) \/ (st y <> st x /\ trace y = st y :: trace x).
 Proof. exact status_once_per_change. Qed.
 Print Assumptions C14_status_once_per_change.
 
 (* in order: the whole trace of a run is the sequence of state changes of that run ([sts] = states after each step,
    [changes] = that sequence with repetitions dropped, starting from the initial DISCONNECTED) *)
-Theorem C14_status_trace_faithful : forall k ls y,
-  run k true true true true true init ls = Some y -> rev (trace y) = changes Disc (sts k true true true true true init ls).
+Theorem C14_status_trace_faithful : forall k sd ls y,
+  run k sd true true true true true init ls = Some y -> rev (trace y) = changes Disc (sts k sd true true true true true init ls).
 Proof. exact status_trace_faithful. Qed.
 Print Assumptions C14_status_trace_faithful.
 
 (* never twice in a row for the same state (the first notification is not DISCONNECTED either), and the last one is the
    current state *)
-Theorem C14_status_trace_no_repeat : forall k x,
-  reachable k true true true true true x -> hd Disc (trace x ++ [Disc]) = st x /\ nodup_adj (trace x ++ [Disc]).
+Theorem C14_status_trace_no_repeat : forall k sd x,
+  reachable k sd true true true true true x -> hd Disc (trace x ++ [Disc]) = st x /\ nodup_adj (trace x ++ [Disc]).
 Proof. exact status_trace_no_repeat. Qed.
 Print Assumptions C14_status_trace_no_repeat.
 
 (* an exception raised by the status callback does not affect the client: replacing "raised" by "returned" in any
    sequence of steps gives the same result (same successor states, same refusals) *)
-Theorem C14_callback_exception_harmless : forall k ls x,
-  run k true true true true true x (map act_norm ls) = run k true true true true true x ls.
+Theorem C14_callback_exception_harmless : forall k sd ls x,
+  run k sd true true true true true x (map act_norm ls) = run k sd true true true true true x ls.
 Proof. exact callback_exception_harmless. Qed.
 Print Assumptions C14_callback_exception_harmless.
 
 (* ---- the code as it was: close() while open_connection() is pending (F-closerace) ---- *)
 Theorem C14_closerace_as_it_was : exists x,
-  run KEByte true false true true true init closerace = Some x /\
+  run KEByte false true false true true true init closerace = Some x /\
   st x = Conn /\ trace x = [Conn; Closed] /\ closing x = KDone /\ writer x = Some 0%nat /\ closed_w x = [] /\ rx x = RCreated.
 Proof. exact closerace_as_it_was. Qed.
 Print Assumptions C14_closerace_as_it_was.
 
 (* ---- non-vacuity: the same schedule on the repaired model, and a close() during a slow callback with a connect() after it ---- *)
 Example C14_nonvacuous_race : exists x,
-  run KEByte true true true true true init (removelast closerace ++ [AImplOk CbNone]) = Some x /\
+  run KEByte false true true true true true init (removelast closerace ++ [AImplOk CbNone]) = Some x /\
   st x = Closed /\ trace x = [Closed] /\ writer x = Some 0%nat /\ closed_w x = [0%nat] /\ rx x = RNone /\ lock x = false.
 Proof. exact closerace_repaired. Qed.
 
 Example C14_nonvacuous : exists x,
-  run KText true true true true true init
+  run KText false true true true true true init
     [AConsStart; AUserConnect; AConnEntry true; AImplOk CbRaise; ARxStart; ARxIter RxSusp; AEnvFeed 40;
      ARxIter (RxRet 0 1); ARxIter RxSusp; AConsGot RcSusp;
      AClose CbSusp; AEnvEof; ACloseCbDone; ARxCancelled; ACloseTimer; AConsCancelled; ACloseTimer;
